@@ -537,7 +537,7 @@ def check_converter(case):
 def huge_cells(tier):
     """Series of 3.4 to 8 million samples: interval lengths whose products (n n_left n_right ~ 4e19) leave the int64 range,
     sums over millions of terms. Data = seeded unit noise around a level with one shift (numpy PCG64, seed stored)."""
-    cells = [(3_400_000, 1, 0.0), (5_000_000, 1, 100.0)]
+    cells = [(3_400_000, 1, 0.0), (5_000_000, 1, 100.0), (60_000, 3, 2.0)]  # (the last: intervals > 2^14 rows, columns on different levels)
     if tier != "quick":
         cells += [(8_000_000, 1, 0.0), (4_200_000, 2, -3.0)]
     for i, (n, p, level) in enumerate(cells):
@@ -551,11 +551,11 @@ def check_huge(case):
 
     n, p = case["n"], case["p"]
     rng = np.random.Generator(np.random.PCG64(case["seed"]))
-    X = rng.standard_normal((n, p)) + case["level"]
+    X = rng.standard_normal((n, p)) + case["level"] * (1 + np.arange(p))  # every column on its own level
     X[n // 2:] += 0.01
     # cuts: the whole series and other multi-million intervals, split in the middle, near the ends and at random places
     cuts3 = [[0, n // 2, n], [0, 10, n], [0, n - 10, n], [7, n // 3, n - 5], [n // 10, n // 2 + 1234, n - n // 10],
-             [0, 1_700_000, 3_399_000], [1000, 2000, 3000]]
+             [0, min(1_700_000, n // 2), min(3_399_000, n - 1000)], [1000, 2000, 3000]]
     cuts3 += [sorted(int(v) for v in rng.choice(n + 1, size=3, replace=False)) for _ in range(8)]
     cuts3 = np.asarray(cuts3, dtype=np.int64)
     S1 = np.concatenate((np.zeros((1, p), dtype=np.longdouble), np.cumsum(X.astype(np.longdouble), axis=0)))
@@ -592,6 +592,45 @@ def check_huge(case):
     return {"nontrivial": True, "classes": [f"n>={n // 1_000_000}e6", f"p={p}"]}
 
 
+def wide_fixed_cells(tier):
+    """Savings and cost inequalities for a covariance cost with a *fixed* covariance on 32..128 channels in millivolt / kilo units
+    (determinants far outside the float range, every matrix perfectly conditioned). Seeded data."""
+    for i, (p_, unit) in enumerate([(64, 1e-3), (32, 1e-3), (100, 40.0), (128, 0.01)] + ([(160, 1e-3), (64, 1e3)] if tier != "quick" else [])):
+        yield {"p": p_, "unit": unit, "seed": 33000 + i}
+
+
+def check_wide_fixed(case):
+    from skchange.anomaly_scores import Saving
+    from skchange.costs import GaussianCovCost
+
+    p_, unit = case["p"], case["unit"]
+    n = 4 * p_
+    rng = np.random.Generator(np.random.PCG64(case["seed"]))
+    X = rng.standard_normal((n, p_)) * unit
+    X[n // 2:] += 0.5 * unit
+    cuts = np.array([[0, n], [0, 2 * p_ + 3], [n - 2 * p_ - 5, n]])
+    with sut("GaussianCovCost with a fixed covariance on wide data"):
+        fixed = np.asarray(GaussianCovCost(param=(0.0, unit * unit)).fit(X).evaluate(cuts), dtype=float)
+        opt = np.asarray(GaussianCovCost().fit(X).evaluate(cuts), dtype=float)
+        sav = np.asarray(Saving(GaussianCovCost(param=(0.0, unit * unit))).fit(X).evaluate(cuts), dtype=float)
+    if not (np.all(np.isfinite(fixed)) and np.all(np.isfinite(opt)) and np.all(np.isfinite(sav))):
+        raise Violation("a cost or saving on well-conditioned wide data is not finite", p=p_, unit=unit, fixed=fixed.ravel().tolist(),
+                        saving=sav.ravel().tolist())
+    tol = 1e-9 * (1 + np.abs(fixed) + np.abs(opt))
+    if np.any(np.abs(sav - (fixed - opt)) > tol):
+        raise Violation("Saving(cost_theta) differs from C_theta - C_opt on wide data", p=p_, unit=unit)
+    if np.any(sav < -tol) or np.any(opt > fixed + tol):
+        raise Violation("the optimal-parameter cost exceeds the cost at a fixed parameter (negative saving) on wide data", p=p_, unit=unit,
+                        saving=sav.ravel().tolist())
+    # the fixed-parameter cost against its definition: n p log(2 pi v) + sum x^2 / v for covariance v I, mean 0
+    v = unit * unit
+    want = np.array([(e - s) * p_ * np.log(2 * np.pi * v) + float((X[s:e] ** 2).sum()) / v for s, e in cuts])
+    if np.any(np.abs(fixed.ravel() - want) > 1e-9 * (1 + np.abs(want))):
+        raise Violation("fixed-covariance cost differs from its definition on wide data", p=p_, unit=unit, got=fixed.ravel().tolist(),
+                        expected=want.tolist())
+    return {"nontrivial": True, "classes": [f"p={p_}", f"unit={unit:g}"]}
+
+
 FACETS = [
     Facet(name="change_score_identity", check=check_change, strategy=change_cases,
           rule=("ChangeScore(cost) for L2/GaussianVar/GaussianCov/user L1Cost (optimal and fixed parameter), admissible "
@@ -623,6 +662,10 @@ FACETS = [
           rule=("to_change_score / to_saving / to_local_anomaly_score applied to every scorer kind: same kind is passed "
                 "through (identity), costs are wrapped and evaluate like the adapter, everything else raises ValueError"),
           n_quick=150, n_thorough=1000, shards_quick=2, shards_thorough=4),
+    Facet(name="wide_fixed_covariance", kind="enumerate", enumerate=wide_fixed_cells, check=check_wide_fixed, exhaustive=True, time_limit=300,
+          rule=("GaussianCovCost with a fixed scalar covariance on 32-128 channels (thorough: 160) in units 1e-3 / 0.01 / 40 (n = 4p, seeded): finite values, "
+                "Saving == C_theta - C_opt >= 0, C_theta equal to its closed form; every cell non-trivial"),
+          shards_quick=4, shards_thorough=6, max_samples=1),
     Facet(name="huge_series", kind="enumerate", enumerate=huge_cells, check=check_huge, exhaustive=True, time_limit=600,
           rule=("series of 3.4 and 5 million samples (thorough: up to 8 million, p up to 2; seeded noise around levels 0 / 100 with one small "
                 "shift): CUSUM^2, ChangeScore(L2Cost), L2Saving, Saving(L2Cost(0)) and LocalAnomalyScore(L2Cost) on multi-million-sample "
